@@ -1312,7 +1312,8 @@ impl<'a, B: BitmapSlice> From<VolatileSlice<'a, B>> for VolatileArrayRef<'a, u8,
 // cause test_non_atomic_access to fail.
 fn alignment(addr: usize) -> usize {
     // Rust is silly and does not let me write addr & -addr.
-    addr & (!addr + 1)
+    // `wrapping_add` because `!addr + 1` overflows for a null address.
+    addr & (!addr).wrapping_add(1)
 }
 
 pub(crate) mod copy_slice_impl {
